@@ -693,7 +693,8 @@ class ClientTls(Client):
                                 errno.EHOSTDOWN,
                                 errno.ETIMEDOUT,
                                 errno.ECONNREFUSED,
-                                ssl.SSLEOFError):
+                                ssl.SSL_ERROR_EOF,
+                                ssl.SSL_ERROR_ZERO_RETURN):
 
                 self.cutoff = True  # this signals need to close/reopen connection
                 return bytes()  # data empty
@@ -733,7 +734,8 @@ class ClientTls(Client):
                                 errno.EHOSTDOWN,
                                 errno.ETIMEDOUT,
                                 errno.ECONNREFUSED,
-                                ssl.SSLEOFError):
+                                ssl.SSL_ERROR_EOF,
+                                ssl.SSL_ERROR_ZERO_RETURN):
 
                 self.cutoff = True  # this signals need to close/reopen connection
                 result = 0
